@@ -6,9 +6,11 @@ package c08
 import (
 	"bufio"
 	"bytes"
+	"encoding/binary"
 	"fmt"
 	"io"
 	"math"
+	"strconv"
 	"strings"
 	"testing"
 	"testing/iotest"
@@ -248,8 +250,121 @@ func Compare(f plyref.File, m *modeling.Mesh, file []byte) *vh.Failure {
 	return nil
 }
 
+// ---------------------------------------------------------------- huge files (vertex numbers beyond 2^24)
+
+// HugeCase describes a file with more than 2^24 vertices, written directly (no writer of the
+// library involved): vertex i sits at (i%4096, i/4096, 0.5), all float32-exact, and the faces name
+// vertex numbers that a float32 cannot hold.
+type HugeCase struct {
+	Enc       string // ascii | binary_little_endian | binary_big_endian
+	CountType string // uchar | int | uint
+	IndexType string // int | uint
+	N         int
+	Faces     [][]int
+}
+
+func hugeCases() []HugeCase {
+	const b = 1 << 24
+	n := b + 8
+	faces := [][]int{{0, 1, n - 1}, {b + 1, b - 1, b + 3}, {b + 5, b + 2, 5, n - 2}, {b + 7, b, 2}}
+	return []HugeCase{
+		{"ascii", "uchar", "int", n, faces},
+		{"binary_little_endian", "uchar", "uint", n, faces},
+		{"binary_big_endian", "int", "int", n, faces},
+	}
+}
+
+func hugeXYZ(i int) [3]float32 { return [3]float32{float32(i % 4096), float32(i / 4096), 0.5} }
+
+func (c HugeCase) encode() []byte {
+	var bo binary.AppendByteOrder = binary.LittleEndian
+	if c.Enc == "binary_big_endian" {
+		bo = binary.BigEndian
+	}
+	hdr := fmt.Sprintf("ply\nformat %s 1.0\ncomment huge reference file\nelement vertex %d\nproperty float x\nproperty float y\nproperty float z\nelement face %d\nproperty list %s %s vertex_indices\nend_header\n",
+		c.Enc, c.N, len(c.Faces), c.CountType, c.IndexType)
+	out := make([]byte, 0, len(hdr)+c.N*14+256)
+	out = append(out, hdr...)
+	if c.Enc == "ascii" {
+		for i := 0; i < c.N; i++ {
+			out = strconv.AppendInt(out, int64(i%4096), 10)
+			out = append(out, ' ')
+			out = strconv.AppendInt(out, int64(i/4096), 10)
+			out = append(out, " 0.5\n"...)
+		}
+		for _, f := range c.Faces {
+			out = strconv.AppendInt(out, int64(len(f)), 10)
+			for _, v := range f {
+				out = append(out, ' ')
+				out = strconv.AppendInt(out, int64(v), 10)
+			}
+			out = append(out, '\n')
+		}
+		return out
+	}
+	for i := 0; i < c.N; i++ {
+		for _, v := range hugeXYZ(i) {
+			out = bo.AppendUint32(out, math.Float32bits(v))
+		}
+	}
+	for _, f := range c.Faces {
+		if c.CountType == "uchar" {
+			out = append(out, byte(len(f)))
+		} else {
+			out = bo.AppendUint32(out, uint32(len(f)))
+		}
+		for _, v := range f {
+			out = bo.AppendUint32(out, uint32(v))
+		}
+	}
+	return out
+}
+
+func runHuge(c HugeCase, o *vh.Obs) *vh.Failure {
+	o.Class("huge/" + c.Enc + "/" + c.CountType + "-" + c.IndexType)
+	o.NonTrivial()
+	file := c.encode()
+	back, err := ply.ReadMesh(bytes.NewReader(file))
+	if err != nil {
+		return vh.Failf("huge/read-error/"+c.Enc, "a valid file with %d vertices and %d faces (%d bytes) is rejected: %v", c.N, len(c.Faces), len(file), err)
+	}
+	var want []int // quads give the fan (0,1,2),(0,2,3)
+	for _, f := range c.Faces {
+		for k := 2; k < len(f); k++ {
+			want = append(want, f[0], f[k-1], f[k])
+		}
+	}
+	if back.Topology() != modeling.TriangleTopology || back.PrimitiveCount() != len(want)/3 {
+		return vh.Failf("huge/primitives/"+c.Enc, "the file describes %d triangles, read topology %v with %d primitives", len(want)/3, back.Topology(), back.PrimitiveCount())
+	}
+	if !back.HasFloat3Attribute(modeling.PositionAttribute) || back.AttributeLength() != c.N {
+		return vh.Failf("huge/vertices/"+c.Enc, "the file holds %d vertices, the mesh has %d", c.N, back.AttributeLength())
+	}
+	got := back.Float3Attribute(modeling.PositionAttribute)
+	ind := back.Indices()
+	for k, w := range want {
+		gi := ind.At(k)
+		if gi < 0 || gi >= got.Len() {
+			return vh.Failf("huge/index-out-of-range/"+c.Enc, "corner %d references vertex %d of %d", k, gi, got.Len())
+		}
+		e := hugeXYZ(w)
+		if p := got.At(gi); p.X() != float64(e[0]) || p.Y() != float64(e[1]) || p.Z() != float64(e[2]) {
+			return vh.Failf("huge/corner-value/"+c.Enc, "corner %d names vertex %d at %v and is read as vertex %d at %v", k, w, e, gi, p)
+		}
+	}
+	for _, i := range []int{0, 1, 4095, 4096, 1 << 16, 1<<24 - 1, 1 << 24, c.N - 1} { // vertex i carries record i
+		e := hugeXYZ(i)
+		if p := got.At(i); p.X() != float64(e[0]) || p.Y() != float64(e[1]) || p.Z() != float64(e[2]) {
+			return vh.Failf("huge/vertex-value/"+c.Enc, "vertex %d is %v in the file and %v in the mesh", i, e, p)
+		}
+	}
+	return nil
+}
+
 func TestC08(t *testing.T) {
 	vh.Drive(t, vh.Spec[Case]{Name: "reference-files", Quick: 300000, Thorough: 2500000, Gen: genCase, Run: runCase, Deadline: 20 * time.Second})
+	// ~1 GB and a few seconds per case, one per encoding, on different shards
+	vh.Enumerate(t, vh.Spec[HugeCase]{Name: "huge-files", Run: runHuge, Deadline: 5 * time.Minute}, hugeCases())
 }
 
 func FuzzC08(f *testing.F) {
